@@ -121,6 +121,20 @@ CHECKS = {
              "for --top_module_namespaces / --ignore (absent, empty, one) / --is_submodule / --use-boost-serialization.",
         note="Linking and importing the combined module is not part of the quick tier.",
         design="6/C16"),
+    "C17": dict(
+        category="model_checking",
+        technique="TLA+ DocString spec: lookup machine with overload counter + Embed/Decode of the C++ literal, "
+                  "model-checked (all lookup sequences over a small Doxygen model; all texts of length <= 3 over a "
+                  "hostile alphabet); replay of generated Doxygen situations into wrap_file; g++ as decoder",
+        text="TLC proves on the model that the literal rule round-trips every text (and that the former repr-based rule "
+             "failed exactly on the analysed classes). Binding: random Doxygen situations are materialised as XML "
+             "trees, the interface is wrapped twice on one wrapper, every binding's literal must equal Embed(text of the "
+             "member the lookup machine selects) as computed by TLC; the code must be identical without XML apart from "
+             "the literals; sampled literals are compiled and the bytes the program holds must be the UTF-8 of the "
+             "text (this also binds DocString!Decode to the compiler).",
+        note="Docstring formatting (brief + detailed + parameters) is not judged: documentation texts are single brief "
+             "paragraphs. Texts are restricted to valid XML characters.",
+        design="6/C17"),
 }
 
 NOT_YET = "not yet built in this session; planned per DESIGN.md section 6"
